@@ -227,6 +227,7 @@ BODY_A = {
     "a13": ['zero if flagF else "Hp"', ("diagonal", '"B" if flagT else "Hp"')],
     "a14": ['g("Hp", "B")', ("offdiagonal", '-"Hp @ A"')],
     "a15": ['"Hp" / 2', ("lower", '"Hp" + "B"'), '"B"'],
+    "a17": ['"Hp" - ("B" + "Hp @ A")', ("offdiagonal", '"Hp" - ("B".adj - "Hp" / 2)')],
     "a16": [("diagonal", '"Hp" - ("B" + "B".adj) / 2'), ("diagonal", 'zero if flags[index[0]] else "Hp @ A" + "Hp @ A".adj'),
             ("offdiagonal", '-f("Hp")')],
 }
@@ -298,6 +299,12 @@ def grammar_cases(tier):
                                         continue
                                     out.append(dict(kind="grammar", sizes=list(sizes), k=k, sA=sA, mA=mA, bA=bA, sB=sB, bB=bB,
                                                     ret=list(ret)))
+    # the same function name defined again with a different body (notebook cell re-run, importlib.reload):
+    # every compilation must follow the definition it is given
+    for bA, bB, pA, pB in (("a2", "b3", "a1", "b1"), ("a1", "b1", "a2", "b3"), ("a7", "b5", "a5", "b2"), ("a3", "b4", "a4", "b6")):
+        out.append(dict(kind="grammar", sizes=[1, 2], k=1, sA=0, mA=None, bA=bA, sB=0, bB=bB, ret=["A", "B"],
+                        prelude=[dict(sA=0, mA=None, bA=pA, sB=0, bB=pB, ret=["A", "B"]),
+                                 dict(sA=1, mA=None, bA=bA, sB=0, bB=pB, ret=["A"])]))
     for bA in K3_BODY:
         for sA in (0, 1):
             out.append(dict(kind="grammar", sizes=[1, 2], k=1, sA=sA, mA=None, bA=bA, sB=0, bB="b1", ret=["A"]))
@@ -373,6 +380,18 @@ def run_grammar(case):
                  ("outputs-last", sorted(elements, key=lambda e: (e[0] in ref.outputs, -sum(e[1][2:]))))]
     for p in itertools.permutations(subset):
         schedules.append((f"perm", list(p) + [("A", (0, 1) + top)]))
+    prelude_files = []
+    for spec in case.get("prelude", []):
+        # other programs under the same function name, compiled and used earlier in the same process
+        psrc = render(spec["sA"], spec["mA"], BODY_A[spec["bA"]], spec["sB"], BODY_B[spec["bB"]], spec["ret"])
+        pfunc, pfname = compile_program(psrc)
+        prelude_files.append(pfname)
+        Hp_ = BlockSeries(eval=lambda *idx: Hv(idx), shape=(nb, nb), n_infinite=k, name="H")
+        pseries, _ = series_computation({"H": Hp_}, algorithm=pfunc, scope=dict(scope))
+        try:
+            pseries["A"][(0, 1) + top]
+        except RuntimeError:
+            pass
     func, fname = compile_program(src)
     try:
         for sname, sched in schedules:
@@ -411,7 +430,9 @@ def run_grammar(case):
                 break
     finally:
         linecache.cache.pop(fname, None)
-        algorithm_parsing._parse_algorithm.cache_clear()
+        for pf in prelude_files:
+            linecache.cache.pop(pf, None)
+        getattr(algorithm_parsing._parse_algorithm, "cache_clear", lambda: None)()  # memory only; not needed for correctness
     d = dict(case)
     d["source"] = src
     return dict(violations=[dict(what=f"{w} [program sA={case['sA']} mA={case['mA']} bA={case['bA']} sB={case['sB']} bB={case['bB']} ret={case['ret']} sizes={sizes} k={k}]", key=key) for w in V[:4]],
@@ -506,7 +527,7 @@ def run_bfs_program(case):
         res = statespace.bfs(W, letters, request, invariant, depthcap=case["depth"], validate_cap=60)
     finally:
         linecache.cache.pop(fname, None)
-        algorithm_parsing._parse_algorithm.cache_clear()
+        getattr(algorithm_parsing._parse_algorithm, "cache_clear", lambda: None)()  # memory only; not needed for correctness
     viol = [dict(what=f"{v['what']} [program {case['prog']} history={v['hist']}]", key=None) for v in res["violations"][:4]]
     for h in res["conformance_errors"][:2]:
         viol.append(dict(what=f"snapshot/restore nonconformance {h}", harness_error=True))
